@@ -97,7 +97,12 @@ def check(ctx, report):
     # ---- R2
     report.count('C11.R2')
     packs = [n for n in ast.walk(cf.node) if isinstance(n, ast.Call) and dotted(n.func) == 'struct.pack']
-    if not packs:
+    if tabulated:
+        # the tabulation above let struct.pack raise struct.error for every value its code cannot hold and saw InvalidValue
+        # come out: the conversion exists wherever the call sits (helper method or not)
+        packs = []
+        report.sample({'rule': 'C11.R2', 'verdict': 'decided by the tabulation of _compose_numeric_array (out-of-range values raise InvalidValue)'})
+    elif not packs:
         report.add('C11.R2', cf.construct + '@pack', 'struct.pack call not found')
     for p in packs:
         ok = False
@@ -219,6 +224,11 @@ def numeric_array_tabulation(ctx, report, pf, cf, formats):
     pparams = [a.arg for a in pf.node.args.args][1:]
     if len(cparams) != 2 or len(pparams) != 4:
         return False
+    # helper methods of the two classes (a per-item packer, a padding helper ...) are evaluated from their own statements
+    from ..miniexec import class_call_hook
+    chook = class_call_hook(cf.cls, hook, ctx.model)
+    phook = class_call_hook(pf.cls, hook, ctx.model)
+    cnames, pnames = chook.name_hook_for(cf.module, names), phook.name_hook_for(pf.module, names)
     try:
         for oname, prefix in sorted(orders.items()):
             for width in sorted(formats):
@@ -230,7 +240,7 @@ def numeric_array_tabulation(ctx, report, pf, cf, formats):
                     want = v.to_bytes(width, endian[prefix])
                     me = Composer(members[oname])
                     try:
-                        Evaluator({'self': me, cparams[0]: [v], cparams[1]: width}, hook, names).function(cf.node)
+                        Evaluator({'self': me, cparams[0]: [v], cparams[1]: width}, chook, cnames).function(cf.node)
                         got = bytes(me._composed)
                     except Raised as e:
                         got = 'raises ' + e.what[:40]
@@ -240,7 +250,7 @@ def numeric_array_tabulation(ctx, report, pf, cf, formats):
                         break
                     pr = Parser(members[oname], b'\xee' + want + want + b'\xdd', 1)
                     try:
-                        res = Evaluator({'self': pr, pparams[0]: 'f', pparams[1]: 2, pparams[2]: width, pparams[3]: int}, hook, names).function(pf.node)
+                        res = Evaluator({'self': pr, pparams[0]: 'f', pparams[1]: 2, pparams[2]: width, pparams[3]: int}, phook, pnames).function(pf.node)
                     except Raised as e:
                         res = 'raises ' + e.what[:40]
                     if not (isinstance(res, tuple) and len(res) == 2 and list(res[0]) == [v, v] and res[1] == 2 * width):
@@ -252,7 +262,7 @@ def numeric_array_tabulation(ctx, report, pf, cf, formats):
                     report.count('C11.R1')
                     me = Composer(members[oname])
                     try:
-                        Evaluator({'self': me, cparams[0]: [v], cparams[1]: width}, hook, names).function(cf.node)
+                        Evaluator({'self': me, cparams[0]: [v], cparams[1]: width}, chook, cnames).function(cf.node)
                         report.add('C11.R1', cf.construct + '@narrowing[%d]' % width,
                                    'ByteOrder.%s: the value %#x does not fit %d byte(s) and is composed as %s instead of raising InvalidValue' % (oname, v, width, bytes(me._composed).hex()))
                         break
@@ -264,7 +274,7 @@ def numeric_array_tabulation(ctx, report, pf, cf, formats):
                 report.count('C11.R1')
                 pr = Parser(members[oname], b'\x00' * (2 * width - 1), 0)
                 try:
-                    Evaluator({'self': pr, pparams[0]: 'f', pparams[1]: 2, pparams[2]: width, pparams[3]: int}, hook, names).function(pf.node)
+                    Evaluator({'self': pr, pparams[0]: 'f', pparams[1]: 2, pparams[2]: width, pparams[3]: int}, phook, pnames).function(pf.node)
                     report.add('C11.R1', pf.construct + '@short[%d]' % width, 'two %d byte items are parsed from %d bytes' % (width, 2 * width - 1))
                 except Raised as e:
                     if 'NotEnoughData' not in e.what:
@@ -688,8 +698,15 @@ def flags_and_timestamps(ctx, report, R4='C11.R4', R5='C11.R5'):
             self.out.append((list(values), item_size))
     members = [0x1, 0x2, 0x8, 0x100, 0x8000, 0x10000, 0x20000, 0x800000]
 
+    from ..miniexec import class_call_hook
+    # helper methods the primitives may delegate to are evaluated from their own statements through the MRO
+    pbh, cbh = class_call_hook(pb, None, model), class_call_hook(cb, None, model)
+
+    def free(name):
+        raise Unsupported('free name ' + name)
+
     def run_parse(f, me, env):
-        Evaluator(dict({'self': me}, **env), None, lambda name: int if name == 'int' else (_ for _ in ()).throw(Unsupported('free name ' + name))).function(f.node)
+        Evaluator(dict({'self': me}, **env), pbh, pbh.name_hook_for(pb.module, free)).function(f.node)
     try:
         for size, shift in ((2, 0), (2, 16), (4, 0), (1, 0)):
             window = [m for m in members if (m >> shift) and (m >> shift) < (1 << (8 * size))]
@@ -697,7 +714,7 @@ def flags_and_timestamps(ctx, report, R4='C11.R4', R5='C11.R5'):
                 for subset in itertools.combinations(window, k):
                     report.count(R4)
                     me = State()
-                    Evaluator({'self': me, 'values': list(subset), 'item_size': size, 'shift_right': shift}, None, None).function(cfl.node)
+                    Evaluator({'self': me, 'values': list(subset), 'item_size': size, 'shift_right': shift}, cbh, cbh.name_hook_for(cb.module, free)).function(cfl.node)
                     want = 0
                     for m in subset:
                         want |= m >> shift
@@ -762,6 +779,8 @@ def flags_and_timestamps(ctx, report, R4='C11.R4', R5='C11.R5'):
         if name == 'dateutil.tz.UTC':
             return UTC
         raise Unsupported('free name ' + name)
+    chook, phook = class_call_hook(cb, hook, model), class_call_hook(pb, hook, model)
+    cnames, pnames = chook.name_hook_for(cb.module, names), phook.name_hook_for(pb.module, names)
     try:
         for size, ms in ((4, False), (8, False), (8, True)):
             sentinel = (1 << (8 * size)) - 1
@@ -770,13 +789,13 @@ def flags_and_timestamps(ctx, report, R4='C11.R4', R5='C11.R5'):
                 report.count(R5)
                 inst = Instant(seconds, millis if ms else 0, offset=(0, 7200, -19800)[(seconds + size) % 3])
                 me = State()
-                Evaluator({'self': me, 'value': inst, 'milliseconds': ms, 'item_size': size}, hook, names).function(cts.node)
+                Evaluator({'self': me, 'value': inst, 'milliseconds': ms, 'item_size': size}, chook, cnames).function(cts.node)
                 want = seconds * 1000 + millis if ms else seconds
                 if me.out != [([want], size)]:
                     report.add(R5, cts.construct + '@value[%s]' % ('ms' if ms else 's'), 'the instant %d s + %d ms is composed as %s in a %d byte field, expected %d' % (seconds, millis if ms else 0, me.out, size, want))
                     break
                 rd = State(want)
-                Evaluator({'self': rd, 'name': 't', 'milliseconds': ms, 'item_size': size}, hook, names).function(pts.node)
+                Evaluator({'self': rd, 'name': 't', 'milliseconds': ms, 'item_size': size}, phook, pnames).function(pts.node)
                 got = rd._parsed_values.get('t')
                 if not isinstance(got, Instant) or (got.seconds, got.millis) != (seconds, millis if ms else 0) or rd._parsed_length != size:
                     report.add(R5, pts.construct + '@value[%s]' % ('ms' if ms else 's'), 'the %d byte wire value %d is parsed as %s, expected %d s + %d ms' % (
@@ -784,11 +803,11 @@ def flags_and_timestamps(ctx, report, R4='C11.R4', R5='C11.R5'):
                     break
             report.count(R5)
             me = State()
-            Evaluator({'self': me, 'value': None, 'milliseconds': ms, 'item_size': size}, hook, names).function(cts.node)
+            Evaluator({'self': me, 'value': None, 'milliseconds': ms, 'item_size': size}, chook, cnames).function(cts.node)
             if me.out != [([sentinel], size)]:
                 report.add(R5, cts.construct + '@sentinel', 'None ("forever") is composed as %s in a %d byte field, expected the all-ones value %#x' % (me.out, size, sentinel))
             rd = State(sentinel)
-            Evaluator({'self': rd, 'name': 't', 'milliseconds': ms, 'item_size': size}, hook, names).function(pts.node)
+            Evaluator({'self': rd, 'name': 't', 'milliseconds': ms, 'item_size': size}, phook, pnames).function(pts.node)
             if rd._parsed_values.get('t', 'missing') is not None:
                 report.add(R5, pts.construct + '@sentinel', 'the all-ones value of a %d byte field is parsed as %r, expected None' % (size, rd._parsed_values.get('t')))
     except (Unsupported, Raised) as e:
